@@ -548,6 +548,51 @@ func (x *Exec) Concretize(t *Term, what string) uint64 {
 	return v
 }
 
+// Choose: an engine-level nondeterministic choice among n alternatives (schedule, select, map
+// order) that no path condition constrains: the alternatives are enumerated as decisions without
+// asking the solver.
+func (x *Exec) Choose(n int, what string) int {
+	if n <= 1 {
+		return 0
+	}
+	v := uint64(0)
+	if x.pos < len(x.prefix) {
+		d := x.prefix[x.pos]
+		x.pos++
+		switch d.K {
+		case dVal:
+			x.decs = append(x.decs, d)
+			if d.V >= uint64(n) {
+				x.abort(EngineError, "replay divergence: choice out of range for "+what)
+			}
+			return int(d.V)
+		case dNotIn:
+			if x.pos != len(x.prefix) {
+				x.abort(EngineError, "replay divergence: notIn not last")
+			}
+			v = uint64(len(d.Vals))
+		default:
+			x.abort(EngineError, "replay divergence: expected value decision")
+		}
+	}
+	if v >= uint64(n) {
+		x.abort(Infeasible, "")
+	}
+	x.symDecs++
+	if v+1 < uint64(n) {
+		alt := make([]Decision, len(x.decs)+1)
+		copy(alt, x.decs)
+		vals := make([]uint64, v+1)
+		for i := range vals {
+			vals[i] = uint64(i)
+		}
+		alt[len(x.decs)] = Decision{K: dNotIn, Vals: vals}
+		x.ex.push(alt)
+	}
+	x.decs = append(x.decs, Decision{K: dVal, V: v})
+	return int(v)
+}
+
 // Assume restricts the path; ends it silently if infeasible.
 func (x *Exec) Assume(c *Term) {
 	if c.IsConst() {
